@@ -20,8 +20,11 @@ for d in /verif/seeded/$PAT/; do
   if $applies; then
     W=$(mktemp -d); (cd $W && PYTHONPATH=$RV/repo timeout 900 /venv/bin/python $d/demo.py $RV/repo >/dev/null 2>&1); demo_rc=$?; rm -rf $W
     (cd $RV/verif && VERIF_REPO=$RV/repo timeout 3000 ./check $pid --tier quick >/dev/null 2>&1); own_rc=$?
-    case "$det" in by-C*-check) nb=$(echo $det | cut -d- -f2);; esac
-    if [ "$own_rc" != "1" ] && [ -n "$nb" ]; then (cd $RV/verif && VERIF_REPO=$RV/repo timeout 3000 ./check $nb --tier quick >/dev/null 2>&1); nb_rc=$?; fi
+    case "$det" in by-*) nb=$(echo $det | grep -o 'C[0-9][0-9]' | tr '\n' ' ');; esac
+    if [ "$own_rc" != "1" ] && [ -n "$nb" ]; then
+      nb_rc=0
+      for q in $nb; do (cd $RV/verif && VERIF_REPO=$RV/repo timeout 3000 ./check $q --tier quick >/dev/null 2>&1); r=$?; [ "$r" = "1" ] && nb_rc=1; done
+    fi
     if [ "$own_rc" != "1" ] && [ "$det" = "thorough-only" ]; then (cd $RV/verif && VERIF_REPO=$RV/repo timeout 6000 ./check $pid --tier thorough >/dev/null 2>&1); nb="$pid-thorough"; nb_rc=$?; fi
   fi
   echo "{\"id\": \"$sid\", \"property\": \"$pid\", \"recorded\": \"$det\", \"patch_applies_to_head\": $applies, \"demo_rc_with_patch\": $demo_rc, \"own_check_rc\": $own_rc, \"neighbour\": \"$nb\", \"neighbour_rc\": $nb_rc}" | tee -a $OUT
